@@ -529,7 +529,9 @@ def check(fx, rep, tier):
                         reset = any(s.get("s") == "Expr" and s["e"].get("k") == "Assign" and F.local_of(s["e"]["l"]) == size_local and T.term(s["e"]["r"], T.Env()) == ("lit", "0") for s in anc["stmts"])
                         if cleared and reset:
                             s4 = True
-                        break
+                            break
+                        if anc.get("k") is None and any(isinstance(x, dict) and x.get("k") == "Loop" for x, _ in [(a_, k_) for a_, k_ in ps if a_ is anc]):
+                            break
                 ok = ok_interval and s1 and s2 and s3 and s4
                 rep.oblige(
                     ok,
